@@ -50,6 +50,14 @@ PROPS = {
         "level": "translation_validation",
         "units": [ConstructTVUnit()],
     },
+    "C18": {
+        "level": "model_checking",
+        "units": [KaniUnit("gui", "c18_", ["fidget_gui::View3::{begin_rotate, rotate, zoom}", "fidget_gui::View2::zoom", "RotateHandle::{yaw, pitch}"],
+                           {"width": "all 2^32 bit patterns for centre, scale, yaw, pitch, zoom factor; cursor positions in [-2, 2]",
+                            "outside": "zoom/drag about a cursor position and the world_to_model matrix identity (nalgebra matrix code does not finish "
+                                       "under CBMC within 15 min per harness; the harnesses are kept as c18_x_* in kani/gui but not run)"},
+                           LIBM_ASSUME[1:], [])],
+    },
     "C15": {
         "level": "translation_validation",
         "units": [BytecodeTVUnit()],
